@@ -996,3 +996,49 @@ Proof.
   intros Hb H. unfold dispatch in H. rewrite Hb in H. apply recv_spec in H.
   destruct H as (_ & _ & _ & _ & _ & _ & _ & _ & _ & Z1). exact Z1.
 Qed.
+
+(* ---- bounded retransmission: an unacknowledged message kills the tunnel after MaxRetries expiries ---- *)
+Fixpoint dead_within (f : conf) (c : chan) (ts : list Z) : bool :=
+  match ts with
+  | [] => false
+  | t :: r => let '(c', _, d, _) := tick f c t in if d then true else dead_within f c' r
+  end.
+
+Fixpoint spaced (gap t : Z) (ts : list Z) : Prop :=
+  match ts with [] => True | t' :: r => t + gap <= t' /\ spaced gap t' r end.
+
+Lemma dead_after_max f : forall n c p r t ts,
+  c_q c = p :: r -> 1 <= p_att p -> Z.of_nat n = f_maxr f - p_att p -> p_dl p <= t ->
+  spaced (f_rto_max f) t ts -> length ts = n ->
+  dead_within f c (t :: ts) = true.
+Proof.
+  induction n as [|n IH]; intros c p r t ts Hq Ha Hn Hd Hs Hl.
+  - cbn [dead_within]. unfold tick. rewrite Hq. cbn [tick_q].
+    assert ((p_att p =? 0) || (t <? p_dl p) = false) as -> by lia.
+    assert (f_maxr f <? p_att p + 1 = true) as -> by lia. reflexivity.
+  - destruct ts as [|t2 ts']; [discriminate|]. destruct Hs as [Hs1 Hs2].
+    cbn [dead_within]. unfold tick at 1. rewrite Hq. cbn [tick_q].
+    assert ((p_att p =? 0) || (t <? p_dl p) = false) as -> by lia.
+    assert (f_maxr f <? p_att p + 1 = false) as -> by lia.
+    match goal with |- context [tick_q f t ?nr 1 ?s r] =>
+      destruct (tick_q f t nr 1 s r) as [[[r' cw] ss] o] end.
+    destruct r' as [r'|]; cbn [option_map]; [|reflexivity].
+    match goal with |- context [tick f ?c' t2] =>
+      change (dead_within f c' (t2 :: ts') = true); eapply (IH c') end.
+    + cbn [c_q]. reflexivity.
+    + cbn [p_att]. lia.
+    + cbn [p_att]. lia.
+    + cbn [p_dl].
+      destruct (f_rto_max f <? f_rto_init f * pow2 (p_att p + 1 - 1)) eqn:E; lia.
+    + exact Hs2.
+    + simpl in Hl. lia.
+Qed.
+
+Definition ex_conf : conf := new_conf 100 400 3 50.
+Definition ex_chan : chan := fst (send_session ex_conf (new_chan 1) 100 0 0).
+Lemma dead_example :
+  (exists p r, c_q ex_chan = p :: r /\ p_att p = 1 /\ p_dl p = 100) /\
+  dead_within ex_conf ex_chan [100; 500; 900] = true /\
+  dead_within ex_conf ex_chan [100; 500] = false /\
+  length (snd (fst (fst (tick ex_conf ex_chan 100)))) = 1%nat.
+Proof. vm_compute. splits; try reflexivity. eexists; eexists; splits; reflexivity. Qed.
